@@ -45,7 +45,7 @@ man = {
     "setup_cmd": "/venv/bin/python -m compileall -q /verif/sim /verif/ref /verif/gen /verif/props /verif/run.py && /venv/bin/python /verif/run.py one C11 1 > /dev/null",
     "hooks": {
         "guard": "PDDL_PLUS_PARSER_VERIF",
-        "enable": "none needed: every seam (class __hash__, builtins.open / io.open, pathlib.Path.glob, sys.settrace) is reachable from outside the repository; checks import the package from VERIF_REPO (default /repo)",
+        "enable": "none needed: every seam (class __hash__, builtins.open / io.open / os.open, pathlib.Path.glob / os.listdir / os.scandir, file mtime, sys.settrace, interpreter environment of the worker groups) is reachable from outside the repository; checks import the package from VERIF_REPO (default /repo)",
         "baseline_off_cmd": "cd /repo && /venv/bin/python -m pytest -ra -q -p no:cacheprovider --timeout=900 --continue-on-collection-errors",
         "source_commits": [],
         "add_only": True,
@@ -53,7 +53,7 @@ man = {
     "engines": [{
         "name": "detsim", "path": "/verif/run.py",
         "serves_properties": [c["property_id"] for c in checks],
-        "kind_free_text": "deterministic simulation with fault injection: one integer -> choice tape (named streams) -> hash-schedule seam, file-tree seam (torn/failed/crashed writes, read errors, directory order), baton-passing pre-emptive thread scheduler with cancellation; reference interpreter as oracle; seeded search over schedules/faults, tape shrinking, replay files",
+        "kind_free_text": "deterministic simulation with fault injection: one integer -> choice tape (named streams) -> hash-schedule seam, file-tree seam (torn/failed/crashed writes, read errors, directory order, a file clock that does not advance), baton-passing pre-emptive thread scheduler with cancellation, worker groups with different interpreter environments; reference interpreter as oracle; seeded search over schedules/faults, tape shrinking, replay files",
     }],
     "checks": checks,
     "notes": "See DESIGN.md. Known findings: known_findings.json (never written at run time). Replays: /verif/replays/.",
